@@ -76,9 +76,31 @@ func genC13(g *gen, seed int64) *Program {
 		if g.p(0.4) {
 			r.NHdrOpts = 1
 		}
+		if r.Creds != nil && g.p(0.3) {
+			// a second per-RPC-credentials option earlier in the option list: the
+			// later option is the one in effect (as with grpc-go), but a
+			// credential that requires transport security must not reach a
+			// plaintext wire in any case
+			r.Creds0 = &CredSpec{Secure: g.p(0.6), MD: []KV{{K: "x-cred0", V: RawStr(fmt.Sprintf("secret0-%d", id))}}}
+		}
 		p.RPCs = append(p.RPCs, r)
 	}
 	return p
+}
+
+func (s *Sim) wireContains(needle string) bool {
+	s.mu.Lock()
+	conns := append([]*connPair(nil), s.conns...)
+	s.mu.Unlock()
+	for _, p := range conns {
+		p.c2s.mu.Lock()
+		rec := string(p.c2s.wrote)
+		p.c2s.mu.Unlock()
+		if strings.Contains(rec, needle) {
+			return true
+		}
+	}
+	return false
 }
 
 func (s *Sim) wireHasPath(path string) bool {
@@ -121,6 +143,25 @@ func oracleC13(s *Sim) {
 		}
 		tls := s.prog.Cfg.TLS
 		shape := fmt.Sprintf("%s|tls=%v", map[bool]string{true: "unary", false: "stream"}[r.Kind == KUnary], tls)
+		if r.Creds0 != nil && r.Creds0.Secure && r.Transport == THTTP && !tls {
+			secret := string(r.Creds0.MD[0].V)
+			leaked := ""
+			if v.hStart != nil {
+				for _, vals := range v.hStart.MD {
+					for _, x := range vals {
+						if x == secret {
+							leaked = "the handler's incoming metadata"
+						}
+					}
+				}
+			}
+			if leaked == "" && s.wireContains(secret) {
+				leaked = "the bytes written to the plaintext connection"
+			}
+			if leaked != "" {
+				v.fail("C13", "secure-credential-on-plaintext-wire|"+shape, "a per-RPC credential that requires transport security contributed metadata (%q) that appears in %s although the base URL is http", secret, leaked)
+			}
+		}
 		if r.Creds != nil {
 			mustFail := r.Creds.Fail || (r.Creds.Secure && r.Transport == THTTP && !tls)
 			why := "credential-error"
